@@ -34,6 +34,29 @@ def run(rep):
         cprog = mir.Program(engine.ensure_facts(engine.config_for("C04")), crates=["aldrin"])
         proxyq.check(rep, cprog, "C04-R7")
 
+    # ---- R8 the owner-side mirror of what the broker asked it to emit (aldrin/src/client/broker_subscriptions.rs) ----
+    if not rep.matrix:
+        sadt = cprog.adt("aldrin::client::broker_subscriptions::Service")
+        flds = [f["name"] for f in sadt["variants"][0]["fields"]] if sadt else []
+        rep.floor("C04-R8", "state fields of the owner-side subscription record", len(flds), 2)
+        for fn in ("is_empty", "emit"):
+            fb = cprog.one(r"^aldrin::client::broker_subscriptions::Service::%s$" % fn)
+            read = set()
+            for bb_ in [fb] + cprog.closures_of(fb.def_):
+                for blk in bb_.blocks:
+                    for st in blk["s"]:
+                        for pl in ([st["r"].get("p")] if st["r"].get("p") else []) + [o[1] for o in st["r"].get("o", []) if o[0] in ("c", "m")]:
+                            for e in pl[1:]:
+                                if isinstance(e, str) and e.startswith(".") and e[1:] in flds:
+                                    read.add(e[1:])
+            rep.check(read == set(flds), "C04-R8", fb.def_, "reads-every-subscription-field", "%s of the owner-side subscription record must consult every kind of subscription it holds (%s); it reads %s — an entry that still carries the ignored kind is dropped / not served" % (fn, flds, sorted(read)),
+                      detail={"fields": flds, "read": sorted(read)})
+        for fn in ("unsubscribe", "unsubscribe_all"):
+            ub = cprog.one(r"^aldrin::client::broker_subscriptions::BrokerSubscriptions::%s$" % fn)
+            rm = [c for c in ub.calls if c.name == "remove" and "OccupiedEntry" in (c.callee or c.full or "")]
+            ok = len(rm) == 1 and bool(broker.has_guard(ub, rm[0].bb, r"^True=Service::is_empty\("))
+            rep.check(ok, "C04-R8", ub.def_, "entry-removed-only-when-empty", "the record of a service may be dropped only when it holds no subscription of any kind (true edge of Service::is_empty)", detail={"sites": len(rm)})
+
     # ---- R1 fan-out ----------------------------------------------------------------------------
     ee = M["emit_event"]
     es = [s for s in broker.sends(ee) if s.msg_type == "EmitEvent"]
